@@ -390,8 +390,16 @@ func outLast() any                               { return nil }
 // ---------------------------------------------------------------------------
 // op.go: wildcards, recursive descent, filters
 
+//@ func memberValues
+//@ props C15 C19
+//@ loop 1 invariant [C15] filled-so-far: len(vals) == len(keys) && forall(func(j int) bool { return implies(0 <= j && j <= rangeindex, vals[j] == obj[keys[j]]) })
+//@ ensures [C15] one-per-member: r0 != nil && len(r0) == len(obj)
+//@ ensures [C15 C19] in-key-order: forall(func(i int) bool { return implies(0 <= i && i < len(r0), r0[i] == obj[uninterp[string]("ext_sorted_key", obj, i)]) })
+//@ ensures [C05 C19] own-slice: fresh(r0)
+
 //@ func collection
 //@ props C15
+//@ ensures [C15 C19] object-members: is[map[string]any](v) ==> ncalls(memberValues) == 1 && sameSlice(r0, callret[[]any](memberValues, 0))
 //@ ensures [C15] array: is[[]any](v) ==> sameSlice(r0, as[[]any](v))
 //@ ensures [C15] scalar: !is[[]any](v) && !is[map[string]any](v) ==> r0 == nil
 //@ ensures [C15] object: is[map[string]any](v) ==> len(r0) == len(as[map[string]any](v))
@@ -647,6 +655,7 @@ func isUnknownSpec(a predOutcome) predOutcome {
 
 //@ func (*Executor).execAnyKey
 //@ props C07 C15
+//@ atcall executeAnyItem assert [C15 C19] members-in-key-order: ncalls(memberValues) == 1 && sameSlice(arg_value, callret[[]any](memberValues, 0)) && arg_found == found && arg_node == node.Next()
 //@ ensures [C15 C07 C09 C10] object: is[map[string]any](value) ==> ncalls(exec.executeAnyItem) == 1 && callarg[uint32](exec.executeAnyItem, "level") == 1 && callarg[uint32](exec.executeAnyItem, "first") == 1 && callarg[uint32](exec.executeAnyItem, "last") == 1 && !callarg[bool](exec.executeAnyItem, "ignoreStructuralErrors") && callarg[bool](exec.executeAnyItem, "unwrapNext") == exec.path.IsLax() && len(callarg[[]any](exec.executeAnyItem, "value")) == len(as[map[string]any](value)) && callarg[*valueList](exec.executeAnyItem, "found") == found && callarg[ast.Node](exec.executeAnyItem, "node") == node.Next() && r0 == callret[resultStatus](exec.executeAnyItem, 0) && r1 == callret[error](exec.executeAnyItem, 1)
 //@ ensures [C07] unwrap-array: is[[]any](value) && unwrap ==> ncalls(exec.executeItemUnwrapTargetArray) == 1 && callarg[any](exec.executeItemUnwrapTargetArray, "value") == value && r0 == callret[resultStatus](exec.executeItemUnwrapTargetArray, 0) && r1 == callret[error](exec.executeItemUnwrapTargetArray, 1)
 //@ ensures [C07 C15] mismatch-lax: !is[map[string]any](value) && !(is[[]any](value) && unwrap) && exec.ignoreStructuralErrors ==> r0 == statusNotFound && r1 == nil
